@@ -160,7 +160,9 @@ class RecheckCheck:
             "entry points: Checker(metafile, path).results() everywhere; the "
             "CLI `recheck` for intact and removal cases at real scale",
             "C16: v1 metafiles with padding entries are judged only where the "
-            "reference percentage is 0 or 100",
+            "reference percentage is 0 or 100; the per-piece verdict vector of "
+            "iter_hashes() is compared with the model's only when both cut "
+            "the same sequence of piece sizes (else only the percentage)",
             "a FileNotFoundError when the content root itself was removed "
             "counts as 'not 100%'",
             "scaled model S = same code with BLOCK_SIZE rebound; every S "
@@ -221,8 +223,9 @@ class RecheckCheck:
         # R
         Ps = [32768] if quick else [16384, 32768, 65536]
         for P in Ps:
-            for sh in (["S1", "D1", "D2n", "D3", "D3n"] if quick
-                       else ["S1", "D1", "D2n", "D3", "D3s", "D3n", "D4"]):
+            for sh in (["S1", "D1", "D2n", "D3", "D3n", "D3d"] if quick
+                       else ["S1", "D1", "D2n", "D3", "D3s", "D3n", "D3d",
+                             "D4"]):
                 n = world.nfiles(sh)
                 if n <= 2:
                     alpha = e1.r_alphabet(P, "quick", n)
@@ -236,6 +239,13 @@ class RecheckCheck:
                     gs.append({"scale": "R", "B": REAL_B, "P": P, "shape": sh,
                                "alpha": alpha, "first": g["first"],
                                "seed": seed, "tier": tier, "maxdmg": 1})
+        # R, the largest accepted piece length with tiny files
+        for sh in ("S1", "D2n"):
+            for g in e1.size_groups(sh, [1, 16385]):
+                gs.append({"scale": "R", "B": REAL_B, "P": 1 << 25,
+                           "shape": sh, "alpha": [1, 16385],
+                           "first": g["first"], "seed": seed, "tier": tier,
+                           "maxdmg": 1})
         return gs
 
     # ------------------------------------------------------------------
@@ -301,6 +311,11 @@ class RecheckCheck:
                 return ("pct", float(tf.execute(["recheck", mpath, content])))
             with tf.quiet():
                 c = tf.recheck.Checker(mpath, content)
+                if self.id == "C16":
+                    vec = [(chunk == piece, size)
+                           for chunk, piece, _p, size in c.iter_hashes()]
+                    self.last_vector = vec
+                    return ("pct", float(c._result))
                 return ("pct", float(c.results()))
         except FileNotFoundError:
             return ("fnf", None)
@@ -398,6 +413,18 @@ class RecheckCheck:
                         res.validated += 1
                         bad = self.judge(fam, meta, dmg_set, got, want,
                                          root_missing)
+                        if self.id == "C16" and not bad and got[0] == "pct" \
+                                and not where.startswith("cli") \
+                                and fam not in PADDED_V1:
+                            # per-piece verdicts, judged only when the
+                            # implementation cuts the same pieces as the model
+                            vec = getattr(self, "last_vector", None)
+                            if vec is not None and [sz for _, sz in vec] == \
+                                    [sz for _, sz in _verd]:
+                                res.extra["per_piece_vectors_compared"] += 1
+                                if [bool(o) for o, _ in vec] != \
+                                        [bool(o) for o, _ in _verd]:
+                                    bad = [("C16", "per-piece-verdicts-differ")]
                         okey = (f"{w['scale']}:{dmg_class(dmg_set)}:"
                                 f"{'ok' if not bad else bad[0][1]}")
                         res.outcomes[okey] += 1
